@@ -133,6 +133,10 @@ class HostModel(Value):
         self.f = f
 
 
+class _InlinedGenerator(Value):
+    """Marker: the generator behind a `yield from` has already run in place."""
+
+
 class GenObj(Value):
     """An un-started generator of an interpreted generator function."""
 
@@ -173,6 +177,7 @@ class Config:
     def __init__(self):
         self.contracts = {}  # "module.qualname" -> callable(interp, args, kwargs) -> value
         self.loop_specs = {}  # ("module.qualname", ordinal) -> LoopSpec
+        self.anchor_specs = []  # [(module name, text in the loop header, LoopSpec)]: for loops that a refactoring may move into another function of the module
         self.models = {}  # host callable -> model(interp, args, kwargs)
         self.method_models = {}  # (type, name) -> model(interp, self, args, kwargs)
         self.havoc_call = None  # callable(interp, fn, args, kwargs) for unknown callees
@@ -482,6 +487,10 @@ class Interp:
         if isinstance(node, ast.Lambda):
             return self.eval(node.body, frame)
         if source.is_generator_def(node) and key not in self.cfg.inline_generators:
+            if getattr(self, "_inline_next_generator", False):
+                self._inline_next_generator = False
+                self.run_body(node.body, frame)
+                return _InlinedGenerator()
             return self._make_generator(node, frame, key)
         return self.run_body(node.body, frame)
 
@@ -574,6 +583,21 @@ class Interp:
     def st_Expr(self, st, frame):
         if isinstance(st.value, ast.Yield):
             self._yield(st.value, frame)
+            return
+        if isinstance(st.value, ast.YieldFrom):
+            # `yield from g(...)` with g an interpreted generator function: its body runs here and its yields are ours
+            # (send / throw into the delegate are not modelled); any other iterable: one yield per item
+            self._inline_next_generator = True
+            try:
+                v = self.eval(st.value.value, frame)
+            finally:
+                self._inline_next_generator = False
+            if v is None or isinstance(v, _InlinedGenerator):
+                return
+            for item in self.iterate_concrete(v):
+                if self.cfg.on_yield is None:
+                    raise OutsideSubset("yield without a generator harness")
+                self.cfg.on_yield(self, item)
             return
         if isinstance(st.value, ast.Constant):
             return  # docstring
@@ -824,8 +848,17 @@ class Interp:
             k = -1
         return (frame.name, k)
 
-    def st_While(self, st, frame):
+    def _spec_for(self, st, frame):
         spec = self.cfg.loop_specs.get(self._loop_key(st, frame))
+        if spec is None and self.cfg.anchor_specs:
+            header = ast.unparse(st.iter if isinstance(st, ast.For) else st.test)
+            for modname, quote, sp in self.cfg.anchor_specs:
+                if frame.name.startswith(modname + ".") and quote in header:
+                    return sp
+        return spec
+
+    def st_While(self, st, frame):
+        spec = self._spec_for(st, frame)
         if spec is not None:
             return self._loop_rule(st, frame, spec, None)
         n = 0
@@ -843,7 +876,7 @@ class Interp:
 
     def st_For(self, st, frame):
         it = self.resolve(self.eval(st.iter, frame))
-        spec = self.cfg.loop_specs.get(self._loop_key(st, frame))
+        spec = self._spec_for(st, frame)
         seq = None
         if isinstance(it, Obj) and hasattr(it.cls, "__next__") and hasattr(it.cls, "__iter__"):
             # an object of an interpreted iterator class (e.g. LineIterator): `for x in obj` calls obj.__iter__() once and
